@@ -6,7 +6,9 @@ CONFIG = dict(
     level_text=("Peer leecher: generated sequences of chunk notifications, processing progress, suspension toggles, done and pauses "
                 "are played against a leecher with a 1 ms recheck interval; every callback is logged and the flow-control, suspension "
                 "and done clauses are evaluated on that log. Base leecher: generated Register/Unregister/Routine/Terminate histories "
-                "with embedder-style session callbacks, Routine driven directly under Mu and (half of the cases) by the ticker."),
+                "with embedder-style session callbacks, Routine driven directly under Mu and (half of the cases) by the ticker. "
+                "Crowd unit: node-sized peer sets (peak of 16-40 registered peers) that are unregistered in waves down to few or zero "
+                "peers and refilled, with ticks, session terminations and eligibility changes interleaved."),
     level_note=NOTE_COMMON + (" The leechers run on their own goroutines and the wall clock; the safety clauses are evaluated on logged "
                               "callback order (timing independent). 'Stops once done' is checked with a 3 s bound (nominal 1 ms), a "
                               "canary for scheduler delay and three re-fails before it is reported."),
@@ -19,7 +21,13 @@ CONFIG = dict(
           "by pre-drawn indices. Oracle: no StartSession while a session runs, after Terminate returned, or with a candidate that is "
           "not registered; when UnregisterPeer(p) returns no session with p runs; without ticker the restart inside UnregisterPeer(p) "
           "must not offer p. Non-trivial = UnregisterPeer of the running session's peer (other peers present / none present). "
-          "Distinct by hash of the generated case."),
+          "Crowd case (TestC18BaseLeecherCrowd) = peak of 16-40 peers, 1-3 cycles of a registration wave (first one up to the peak) and a wave "
+      "of unregistrations (of the running session's peer or of the n-th registered peer, named at run time from the model) down to "
+      "0-5 peers or a quarter/half of the level, 0-2 interleaved ticks/shouldTerminate/eligibility toggles/duplicate registrations/"
+      "unknown-peer unregistrations per step, ticker in 1/3 of the cases; same oracle, and in all base leecher units: the session is "
+      "started with a registered peer and, until Terminate, PeersNum() after every RegisterPeer/UnregisterPeer equals the number of "
+      "registered peers of the model (an unregistered peer is no longer counted). "
+      "Distinct by hash of the generated case."),
     assumptions=["Done() is monotone (an embedder never un-reports a finished download)",
                  "Terminate is called at most once per leecher (it closes Quit)",
                  "a request for zero chunks counts as a request issued while the window is full"],
@@ -27,5 +35,6 @@ CONFIG = dict(
         dict(test="TestC18Regression", kind="plain"),
         dict(test="TestC18PeerLeecher", quick=500, thorough=80000, shards=16),
         dict(test="TestC18BaseLeecher", quick=500, thorough=80000, shards=16),
+        dict(test="TestC18BaseLeecherCrowd", quick=300, thorough=32000, shards=16),
     ],
 )
